@@ -1,5 +1,5 @@
 /-
-  Helper lemmas for C01 (`lower_sound'`), part 2: instantiated leaf formulas on extended scalar
+  Helper lemmas for C01 (`lower_sound_ext`), part 2: instantiated leaf formulas on extended scalar
   forms with a derivative budget (`instX_sound`: the arguments must allow as many further
   derivatives as the formula nests, `pdDepth`), shapes `hasShapeX` and budgets `VN` of lowered
   values, the generic leaf steps `leaf1_soundX` / `leaf2_soundX`, and sums and products.
@@ -404,11 +404,13 @@ theorem addV_LX (a b : E) (ha : LX a = true) (hb : LX b = true) : addV a b = .ok
   cases a <;> cases b <;> first | rfl | (simp only [LX] at ha; exact absurd ha Bool.false_ne_true) | (simp only [LX] at hb; exact absurd hb Bool.false_ne_true)
 
 theorem addV_LX_mat (a : E) (ha : LX a = true) (r c : Nat) (es : List E) :
-    addV a (mat r c es) = .error .typeError := by
+    addV a (mat r c es) = if r == 1 && c == 1 then
+      .ok (mat 1 1 (([a].zip es).map (fun p => add [p.1, p.2]))) else .error .typeError := by
   cases a <;> first | rfl | (simp only [LX] at ha; exact absurd ha Bool.false_ne_true)
 
 theorem addV_mat_LX (b : E) (hb : LX b = true) (r c : Nat) (es : List E) :
-    addV (mat r c es) b = .error .typeError := by
+    addV (mat r c es) b = if r == 1 && c == 1 then
+      .ok (mat 1 1 ((es.zip [b]).map (fun p => add [p.1, p.2]))) else .error .typeError := by
   cases b <;> first | rfl | (simp only [LX] at hb; exact absurd hb Bool.false_ne_true)
 
 theorem mulV_LX (a b : E) (ha : LX a = true) (hb : LX b = true) : mulV a b = .ok (mul [a, b]) := by
@@ -447,10 +449,11 @@ theorem VN_LN (S : DRing K) (k : Nat) (t : E) (hL : LX t = true) (h : VN S k t) 
 /-- shape and budget of a lowered value -/
 def ShN (S : DRing K) (d k : Nat) (τ : Ty) (t : E) : Prop := hasShapeX d τ t = true ∧ VN S k t
 
-/-- the sum of two lowered values of one type -/
+/-- the sum of two lowered values of one type (in dimension 1 a scalar form and a 1×1 matrix add
+    up to a 1×1 matrix) -/
 theorem addV_soundX (S : DRing K) (d k : Nat) (τ : Ty) (a b t : E)
     (ha : ShN S d k τ a) (hb : ShN S d k τ b) (h : addV a b = .ok t) :
-    ShN S d k τ t ∧ ∀ i j, den S t i j = den S a i j + den S b i j := by
+    ShN S d k τ t ∧ ∀ i j, InR d τ i j → den S t i j = den S a i j + den S b i j := by
   by_cases hma : ∃ r c es, a = mat r c es
   · obtain ⟨r, c, es, rfl⟩ := hma
     obtain ⟨hr, hc, hl, hs, hτ⟩ := hasShapeX_mat d τ r c es ha.1
@@ -471,26 +474,63 @@ theorem addV_soundX (S : DRing K) (d k : Nat) (τ : Ty) (a b t : E)
         rcases hy with rfl | rfl
         · exact ha.2 _ this.1
         · exact hb.2 _ this.2
-      · intro i j
+      · intro i j _
         simp only [den]
         split
         · exact denNth_zip_add S es es' (by rw [hl, hl']) _
         · simp
     · have hb' := hasShapeX_nonmat d τ b hb.1 (by
         intro r c es he; exact hmb ⟨r, c, es, he⟩)
-      rw [addV_mat_LX b hb'.1] at h; cases h
+      have hlb := VN_LN S k b hb'.1 hb.2
+      obtain ⟨hd, hc, e0, rfl⟩ := mixed_1d d τ es hτ hb'.2 hl
+      subst hd
+      have hva := ha.2
+      rw [hc] at h hva ⊢
+      rw [addV_mat_LX b hb'.1] at h
+      simp only [beq_self_eq_true, Bool.and_self, if_true] at h
+      injection h with h; subst h
+      have hle : LN S k e0 := hva e0 (by simp)
+      have hln : LN S k (add [e0, b]) := by apply LN_add; ln_list
+      refine ⟨⟨?_, ?_⟩, fun i j hij => ?_⟩
+      · have := hln.1
+        cases τ <;> simp_all [hasShapeX, LX, LXList]
+      · intro x hx
+        simp only [List.zip_cons_cons, List.zip_nil_right, List.map_cons, List.map_nil,
+          List.mem_singleton] at hx
+        subst hx; exact hln
+      · obtain ⟨rfl, rfl⟩ := (InR_one τ i j).mp hij
+        simp [den, denNth, denSum]
   · have ha' := hasShapeX_nonmat d τ a ha.1 (by intro r c es he; exact hma ⟨r, c, es, he⟩)
+    have hla := VN_LN S k a ha'.1 ha.2
     by_cases hmb : ∃ r c es, b = mat r c es
     · obtain ⟨r', c', es', rfl⟩ := hmb
-      rw [addV_LX_mat a ha'.1] at h; cases h
+      obtain ⟨hr, hc, hl, hs, hτ⟩ := hasShapeX_mat d τ r' c' es' hb.1
+      subst r' c'
+      obtain ⟨hd, hc, e0, rfl⟩ := mixed_1d d τ es' hτ ha'.2 hl
+      subst hd
+      have hvb := hb.2
+      rw [hc] at h hvb ⊢
+      rw [addV_LX_mat a ha'.1] at h
+      simp only [beq_self_eq_true, Bool.and_self, if_true] at h
+      injection h with h; subst h
+      have hle : LN S k e0 := hvb e0 (by simp)
+      have hln : LN S k (add [a, e0]) := by apply LN_add; ln_list
+      refine ⟨⟨?_, ?_⟩, fun i j hij => ?_⟩
+      · have := hln.1
+        cases τ <;> simp_all [hasShapeX, LX, LXList]
+      · intro x hx
+        simp only [List.zip_cons_cons, List.zip_nil_right, List.map_cons, List.map_nil,
+          List.mem_singleton] at hx
+        subst hx; exact hln
+      · obtain ⟨rfl, rfl⟩ := (InR_one τ i j).mp hij
+        simp [den, denNth, denSum]
     · have hb' := hasShapeX_nonmat d τ b hb.1 (by intro r c es he; exact hmb ⟨r, c, es, he⟩)
       rw [addV_LX a b ha'.1 hb'.1] at h
       injection h with h; subst h
-      have hla := VN_LN S k a ha'.1 ha.2
       have hlb := VN_LN S k b hb'.1 hb.2
       have hln : LN S k (add [a, b]) := by apply LN_add; ln_list
       refine ⟨⟨hasShapeX_mk_LX d τ _ hln.1 ha'.2, hln⟩, ?_⟩
-      intro i j; simp [den, denSum]
+      intro i j _; simp [den, denSum]
 
 /-- the product of a scalar and a lowered value (either order) -/
 theorem mulV_soundX (S : DRing K) (d k : Nat) (τa τb τ : Ty) (a b t : E)
@@ -566,12 +606,12 @@ theorem mulV_soundX (S : DRing K) (d k : Nat) (τa τb τ : Ty) (a b t : E)
 theorem foldAdd_soundX (S : DRing K) (d k : Nat) (τ : Ty) (ts : List E) (acc t : E)
     (hacc : ShN S d k τ acc) (hts : ∀ x ∈ ts, ShN S d k τ x)
     (h : ts.foldlM addV acc = .ok t) :
-    ShN S d k τ t ∧ ∀ i j, den S t i j = den S acc i j + denSum S ts i j := by
+    ShN S d k τ t ∧ ∀ i j, InR d τ i j → den S t i j = den S acc i j + denSum S ts i j := by
   induction ts generalizing acc with
   | nil =>
     simp only [List.foldlM_nil, pure, Except.pure] at h
     injection h with h; subst h
-    exact ⟨hacc, fun i j => by simp [denSum]⟩
+    exact ⟨hacc, fun i j _ => by simp [denSum]⟩
   | cons x ts ih =>
     simp only [List.foldlM_cons, bind, Except.bind] at h
     cases h1 : addV acc x with
@@ -580,8 +620,8 @@ theorem foldAdd_soundX (S : DRing K) (d k : Nat) (τ : Ty) (ts : List E) (acc t 
       rw [h1] at h
       have hx := addV_soundX S d k τ acc x acc' hacc (hts x (by simp)) h1
       have := ih acc' hx.1 (fun y hy => hts y (by simp [hy])) h
-      refine ⟨this.1, fun i j => ?_⟩
-      rw [this.2 i j, hx.2 i j]; simp only [denSum]; ring
+      refine ⟨this.1, fun i j hij => ?_⟩
+      rw [this.2 i j hij, hx.2 i j hij]; simp only [denSum]; ring
 
 theorem foldMul_soundX (S : DRing K) (d k : Nat) (ts : List E) (τs : List Ty) (acc t : E) (τacc τ : Ty)
     (hacc : ShN S d k τacc acc) (hts : List.Forall₂ (fun x τx => ShN S d k τx x) ts τs)
